@@ -150,9 +150,21 @@ def cfg_simplifications(cfg):
         c = copy.deepcopy(cfg)
         c["crop"]["overrides"] = {}
         yield c
+        CAL = ("EmergenceCD", "MaxRootingCD", "SenescenceCD", "MaturityCD", "HIstartCD", "FloweringCD", "YldFormCD", "CGC_CD", "CDC_CD",
+               "Emergence", "MaxRooting", "Senescence", "Maturity", "HIstart", "Flowering", "YldForm", "CGC", "CDC")
+        if any(k in cfg["crop"]["overrides"] for k in CAL):
+            # a scaled crop calendar is ONE setting: dropping single stages would leave an inconsistent calendar
+            c = copy.deepcopy(cfg)
+            for k in CAL:
+                c["crop"]["overrides"].pop(k, None)
+            yield c
         for k in list(cfg["crop"]["overrides"].keys()):
+            if k in CAL or k == "SwitchGDDType":
+                continue
             c = copy.deepcopy(cfg)
             del c["crop"]["overrides"][k]
+            if k == "SwitchGDD":
+                c["crop"]["overrides"].pop("SwitchGDDType", None)
             yield c
     if cfg["crop"].get("harvest"):
         c = copy.deepcopy(cfg)
